@@ -552,6 +552,21 @@ def job_variants(case):
                     ("others_testids", {"_others": "test"})]
         if case.get("_draw"):
             variants.append(("draw", {"draw": True, "sched_uuid": "verifdraw"}))
+        if case.get("_tabs"):
+            # layout the language ignores: a tab after the blanks of the indentation of some lines.  Every variant (text,
+            # file, ...) gets the same text; if the text does not run like the original one, the original is used
+            rng = random.Random(case.get("seed", 0) ^ 0x7AB)
+            lines = case["text"].split("\n")
+            for i, l in enumerate(lines):
+                ind = len(l) - len(l.lstrip(" "))
+                if ind >= 4 and l.strip() and rng.random() < 0.4:
+                    lines[i] = l[:ind] + "\t" + l[ind:]
+            c3 = copy.deepcopy(case)
+            c3["text"] = "\n".join(lines)
+            res3, _ = sc.run_impl(copy.deepcopy(c3))
+            res0, _ = sc.run_impl(copy.deepcopy(case))
+            if res3.get("valid") and [c["exc"] for c in res3["calls"]] == [c["exc"] for c in res0["calls"]] and len(res3["calls"]) == len(res0["calls"]):
+                case = c3
         for name, delta in variants:
             c2 = copy.deepcopy(case)
             for k, v in delta.items():
@@ -916,10 +931,21 @@ def _run(ctx, cfg, n_cases, pool, res):
     if cfg.get("variants"):
         sub = valid[: (48 if tier == "quick" else 600)]
         ndraw = 0
+        import re as _re
+        cond_cmp = _re.compile(r"Condition\n\s+[^\n]*[<>]")
+        ncmp = 0
+        for i, r in enumerate(sub):
+            # drawing: first the small runs whose program has a Condition with an ordering comparison (the text of the
+            # expression becomes a label of the drawing), then any small runs
+            small = sum(len(c["out"]) for c in r["calls"]) < 50
+            r["case"]["_draw"] = bool(small and cond_cmp.search(r["case"]["text"]) and ncmp < (4 if tier == "quick" else 40))
+            ncmp += int(r["case"]["_draw"])
+            r["case"]["_tabs"] = (i % 3 == 1)
         for i, r in enumerate(sub):
             small = sum(len(c["out"]) for c in r["calls"]) < 50
-            r["case"]["_draw"] = small and ndraw < (3 if tier == "quick" else 30)
-            ndraw += int(r["case"]["_draw"])
+            if not r["case"]["_draw"]:
+                r["case"]["_draw"] = small and ndraw < (3 if tier == "quick" else 30)
+                ndraw += int(r["case"]["_draw"])
         vres = pool.map(job_variants, [r["case"] for r in sub], chunksize=2)
         for r, rv in zip(sub, vres):
             r["stats"]["variants"] = len(rv.get("variants", []))
